@@ -36,6 +36,10 @@ where
         key: K,
         guard: ReplicaOwnedMutexGuard<EntryValue<C::WrappedV<V>>>,
     ) -> Self {
+        #[cfg(feature = "verif_hooks")]
+        crate::verif_hooks::at(crate::verif_hooks::Site::GuardCreated(
+            crate::verif_hooks::key_hash(&key),
+        ));
         Self {
             map,
             key,
